@@ -328,6 +328,7 @@ class BatchFail(RuntimeError):
     """exception *raised* by the batch function itself"""
 
 
+FRESH_KEYS = ('a', 'b', 'd')
 BEH = ('value', 'exc', 'sub', 'omit', 'raise', 'twice', 'unknown', 'stopiter')
 KEYS3 = ('a', 'b', 'c')
 
@@ -528,7 +529,7 @@ def twin_c04(gaps, kidx, beh):
     return []
 
 
-def scen_c09(gaps, kidx, cancel_delay, who, use_timeout, order_idx, batch_dur, mbs, rt=0, bt=5, fresh=True, who2=-1, cancel_delay2=0):
+def scen_c09(gaps, kidx, cancel_delay, who, use_timeout, order_idx, batch_dur, mbs, rt=0, bt=5, fresh=True, who2=-1, cancel_delay2=0, mcb=2):
     """every key yields a value; caller `who` (and optionally `who2`) is cancelled `cancel_delay` after its
     arrival (task.cancel, or wait_for expiry when use_timeout); afterwards fresh calls must be served."""
     global LAST_INFO, RAW
@@ -540,7 +541,7 @@ def scen_c09(gaps, kidx, cancel_delay, who, use_timeout, order_idx, batch_dur, m
     f = _batch_fn(st, lambda k: 'value', order_idx, 0, batch_dur)
 
     def mk():
-        return M.AsyncBackgroundBatcher(f, max_batch_size=mbs, max_concurrent_batches=2, batch_timeout=bt, retention_timeout=rt)
+        return M.AsyncBackgroundBatcher(f, max_batch_size=mbs, max_concurrent_batches=mcb, batch_timeout=bt, retention_timeout=rt)
     calls = [(gaps[i], 100 + i, keyof[i]) for i in range(n)]
     plan = {who: cancel_delay}
     if who2 >= 0:
@@ -552,7 +553,7 @@ def scen_c09(gaps, kidx, cancel_delay, who, use_timeout, order_idx, batch_dur, m
     async def after(b, st_):
         if not fresh:
             return
-        for j, k in enumerate(('a', 'd')):
+        for j, k in enumerate(FRESH_KEYS):
             try:
                 fresh_out[j] = ('ok', await aio.wait_for(b(500 + j, key=k), 1000))
             except BaseException as e:  # noqa
@@ -602,7 +603,7 @@ def scen_c09(gaps, kidx, cancel_delay, who, use_timeout, order_idx, batch_dur, m
     if outcome[0] == 'ok' and fresh:
         if getattr(st, 'loop_task_done', False):
             devs.append('processing-task-died')
-        for j, k in enumerate(('a', 'd')):
+        for j, k in enumerate(FRESH_KEYS):
             o = fresh_out.get(j)
             if o is None or o[0] != 'ok' or not (isinstance(o[1], tuple) and o[1][0] == 'val' and o[1][2] == k):
                 devs.append('fresh-call-after-cancellation-not-served')
@@ -696,7 +697,7 @@ def c09_cells(tier):
     out = []
     q = 'quick'
 
-    def fam(pat, mbs, rt, use_to, tier_, tmo, two=False, orders=(0, 1, 2), gmax=7, cmax=12, whos=None):
+    def fam(pat, mbs, rt, use_to, tier_, tmo, two=False, orders=(0, 1, 2), gmax=7, cmax=12, whos=None, mcb=2):
         kid = [KEYS3.index(c) for c in pat]
         n = len(pat)
         for who in (whos if whos is not None else range(n)):
@@ -707,10 +708,11 @@ def c09_cells(tier):
                 if two:
                     pre.append('0 <= who2 <= %d and 0 <= cancel_delay2 <= %d' % (n - 1, cmax))
                 out.append(Cell(
-                    name='c09_%s_mbs%d_rt%d_%s_who%d_o%d%s' % (pat, mbs, rt, 'waitfor' if use_to else 'cancel', who, order, '_two' if two else ''),
+                    name='c09_%s_mbs%d%s_rt%d_%s_who%d_o%d%s' % (pat, mbs, '' if mcb == 2 else '_mcb%d' % mcb, rt, 'waitfor' if use_to else 'cancel',
+                                                               who, order, '_two' if two else ''),
                     sig=sig, pre=pre,
-                    body='H.scen_c09(gaps, %r, cancel_delay, %d, %r, %d, batch_dur, %d, %d, 5, True%s)' % (
-                        kid, who, use_to, order, mbs, rt, ', who2, cancel_delay2' if two else ''),
+                    body='H.scen_c09(gaps, %r, cancel_delay, %d, %r, %d, batch_dur, %d, %d, 5, True%s%s)' % (
+                        kid, who, use_to, order, mbs, rt, ', who2, cancel_delay2' if two else ', -1, 0', ', %d' % mcb),
                     tier=tier_, timeout=tmo, family='c09', weight=2 + n))
     fam('ab', 2, 0, False, q, 300)
     fam('aa', 2, 0, False, q, 300, orders=(0,))
@@ -718,6 +720,7 @@ def c09_cells(tier):
     fam('aa', 2, 6, False, q, 300, orders=(0,))
     fam('aab', 3, 0, False, q, 400, orders=(2,), gmax=3, cmax=8)
     fam('aaa', 3, 0, False, q, 400, orders=(0,), gmax=4, cmax=8, whos=(0,))
+    fam('abc', 1, 0, False, q, 400, orders=(0,), gmax=1, cmax=3, whos=(1, 2), mcb=1)   # smallest limits: everything queues behind one slot
     out.append(Cell(name='twin_c09_cancel_during_batch', sig='gaps: List[int], cancel_delay: int',
                     pre=['len(gaps) == 2 and gaps[0] == 0 and 0 <= gaps[1] <= 7 and 0 <= cancel_delay <= 12'],
                     body='H.twin_c09(gaps, cancel_delay)', expect='refute', timeout=200, family='c09'))
@@ -754,6 +757,10 @@ def c11_cells(tier):
                                 tier=q if (fm == 0 or pat == 'aaa') else 'thorough',
                                 timeout=300 if (fm == 0 or pat == 'aaa') else 600, family='c11',
                                 weight={'aba': 4, 'aab': 3, 'aaa': 3}[pat]))
+    # the empty string is a key like any other (different arguments, same explicit key '')
+    out.append(Cell(name='c11_empty_string_key', sig='gaps: List[int], rt: int, dur: int',
+                    pre=['len(gaps) == 3 and gaps[0] == 0 and all(0 <= g <= 6 for g in gaps) and 0 <= rt <= 4 and 0 <= dur <= 2'],
+                    body="H.scen_c11(gaps, [1, 1, 0], rt, dur, 0, True, 2, 0, ('a', ''))", tier=q, timeout=600, family='c11', weight=3))
     # four calls on one key around two retention windows (a timer armed by an earlier hit must not evict a later request)
     for sfx, pre in product_pre([parts('gaps[2]', [(1, 4), (5, 9)]), parts('gaps[3]', [(1, 5), (6, 10)])]):
         out.append(Cell(name='c11_aaaa_windows_p%s' % sfx, sig='gaps: List[int], rt: int',
